@@ -5,7 +5,6 @@ mod spec;
 use mc::report::{load_replay, run_replay};
 use mc::{Bounds, Known, Report, RunStats};
 use model::*;
-use rayon::prelude::*;
 use configs::configs;
 
 fn describe(prop: &str) -> (&'static str, &'static str) {
@@ -59,14 +58,12 @@ fn run(prop: &str, tier: &str) -> i32 {
         "flex multisig is instantiated one block after its group".into(),
     ];
     let seed = mc::report::seed();
-    let runs: Vec<RunStats> = cfgs
-        .par_iter()
-        .map(|(c, d)| {
-            let m = Cw3Model { cfg: c.clone() };
-            let b = Bounds { max_depth: *d, max_states: 3_000_000, max_secs: if thorough { 2400.0 } else { 120.0 } };
-            mc::bfs(&m, &b, &known, seed)
-        })
-        .collect();
+    let runs: Vec<RunStats> = mc::run_pooled(cfgs.len(), |i| {
+        let (c, d) = &cfgs[i];
+        let m = Cw3Model { cfg: c.clone() };
+        let b = Bounds { max_depth: *d, max_states: 3_000_000, max_secs: if thorough { 2400.0 } else { 120.0 } };
+        mc::bfs(&m, &b, &known, seed)
+    });
     rep.runs = runs;
     rep.finish()
 }
